@@ -22,7 +22,7 @@ import numpy as np
 from lib import common as C
 
 LEVEL = "proof"
-STATIC = ["Geometry/Dimensionality.vo", "Geometry/DimensionalityProofs.vo", "Base/Cover.vo", "Base/CaseUtil.vo"]
+STATIC = ["Geometry/Dimensionality.vo", "Geometry/DimensionalityProofs.vo", "Geometry/DimensionalityInvariance.vo", "Base/Cover.vo", "Base/CaseUtil.vo"]
 G = 4096  # grid: coordinates are integer multiples of 2^-12
 PREAMBLE = ("From Coq Require Import List ZArith Bool.\nImport ListNotations.\n"
             "From MV Require Import Geometry.Dimensionality.\n")
@@ -429,7 +429,11 @@ def run_impl(cases):
 def predicate(case, orc, r):
     """the property's own predicate on one structure; returns None if it holds, else a reason"""
     if "error" in r:
+        if r["error"].startswith(("CaseTimeout", "MemoryError")):
+            return None      # resource limit of the runner, counted as an exclusion (resource_excluded), not a verdict
         return "raised " + r["error"]
+    if r.get("labels") is None and "dim" not in r:
+        return "no result"
     if not r.get("untouched", True):
         return "caller's Atoms/radii modified"
     if r["labels"] is None:
@@ -437,8 +441,9 @@ def predicate(case, orc, r):
     if r["labels"] != orc["labels"]:
         return "1x clusters differ from the connected components of the bonding graph"
     if (r["dim"] is None) != (not orc["connected"]):
-        return "None returned %s the bonding graph of the cell contents has %s" % (
-            ("although", "one component") if r["dim"] is None else ("although", "more than one component"))
+        if r["dim"] is None:
+            return "None returned although the bonding graph of the cell contents has one component"
+        return "%r returned although the bonding graph of the cell contents has more than one component" % r["dim"]
     if orc["connected"] and not orc["mismatch"] and r["dim"] != orc["rankZ"]:
         return "returned %r, rank of the periodic bonding network is %r" % (r["dim"], orc["rankZ"])
     if "dim_precomputed" in r and r["dim_precomputed"] != r["dim"]:
@@ -522,7 +527,8 @@ def term_check(case, orc, r):
 
 
 def term_pair(c1, o1, c2, o2):
-    return "same_spec %s %s %s %s" % (nat(len(c1["numbers"])), e_lit(o1["E"]), nat(len(c2["numbers"])), e_lit(o2["E"]))
+    return "same_spec %s %s %s %s %s %s" % (nat(len(c1["numbers"])), pbc_lit(c1["pbc"]), e_lit(o1["E"]),
+                                            nat(len(c2["numbers"])), pbc_lit(c2["pbc"]), e_lit(o2["E"]))
 
 
 # ------------------------------------------------------------------------------------------------
@@ -579,14 +585,16 @@ def build_cases(ctx, n_base, cap):
 def run(ctx):
     ctx.add_trusted(
         "harness oracle (props/c09.py: bonded image pairs by exact integer box enumeration on the 2^-12 grid; its rank computation is cross-checked against dim_spec inside Coq on every case)",
-        "C10 specification of the minimum-image table as a Section hypothesis (tab_spec) in Geometry/DimensionalityProofs.v; validated here only through the end-to-end comparison",
-        "scikit-learn DBSCAN(min_samples=1, precomputed) = connected components of d <= eps (modelled by Base/Graph.component; compared on every case through the returned clusters)",
-        "ase.Atoms.repeat ordering (modelled by Dimensionality.mask; compared through the 2x count)",
-        "exact-arithmetic semantics: on grid inputs with dyadic radii every bond decision of the implementation is exact in binary64; with preset (non-dyadic) radii cases with |d - t| < 1e-9 are excluded and counted")
+        "C10 specification of the minimum-image table as a Section hypothesis (tab_spec) in Geometry/DimensionalityProofs.v (theorems C09_graph_1x/2x_is_quotient, C09_metric_eq_graph); validated here only through the end-to-end comparison",
+        "scikit-learn DBSCAN(min_samples=1, precomputed) = connected components of d <= eps (modelled by Base/Graph.component + Cover.comps; compared on every case through the returned clusters)",
+        "ase.Atoms.repeat ordering and np.tile of the radii (modelled by Dimensionality.mask / rad2; compared through the 2x count)",
+        "exact-arithmetic semantics: on grid inputs with dyadic radii every bond decision of the implementation is exact in binary64; with preset (non-dyadic) radii cases with |d - t| < 1e-9 are excluded and counted",
+        "tested, not proved: invariance of dim_spec under re-presentation (C09_invariance_full_statement; relation same_spec on every generated pair) and equality of the 1x cluster labels")
     ctx.assumptions += [
         "1-30 atoms, non-singular cell 0.5-30 A on the 2^-12 grid, thresholds 0.3-3.5 A, radii > 0",
         "the supercell clause is read as: if the contents of the supercell are still connected the dimensionality is unchanged; a supercell taken along a direction in which the network is not connected has several components and None is required by the first clause",
-        "GF(2) rank = integer rank of the cycle lattice (property's family condition); generated cases violating it are counted as exclusions",
+        "GF(2) rank = integer rank of the cycle lattice (the property's family condition); the code provably returns the GF(2) rank (C09_mirror_eq_spec); generated cases where the two ranks differ are counted as exclusions (rank_mismatch_exclusions)",
+        "structures whose periodic images are so dense that the cell list / extended system would not fit the runner's memory budget are not generated (dense_rejected)",
     ]
     # ---- prove ---------------------------------------------------------------------------------
     broken = None
@@ -597,7 +605,7 @@ def run(ctx):
 
     # ---- generate + oracle -----------------------------------------------------------------------
     quick = ctx.tier == "quick"
-    n_base = 420 if quick else 4000
+    n_base = int(os.environ.get("VERIF_C09_NBASE", 0)) or (1200 if quick else 9000)
     cap = 350 if quick else 500
     import time
     t0 = time.time()
@@ -687,6 +695,7 @@ def run(ctx):
         "shapes": {m: sum(1 for c in cases if c["meta"].get("shape") == m) for m in ("gas", "layer", "chain", "blob")},
         "cells": {m: sum(1 for c in cases if c["meta"].get("cell_kind") == m) for m in ("orthogonal", "skewed", "sheared")},
         "precomputed_matrix_path": sum(1 for c in cases if c.get("precomputed")),
+        "resource_excluded": sum(1 for c in cases if "error" in res[c["id"]] and res[c["id"]]["error"].startswith(("CaseTimeout", "MemoryError"))),
         "max_bonded_image_pairs": max([len(c["_orc"]["E"]) for c in cases] or [0]),
     })
     ctx.coverage["input_distribution"] = d
